@@ -350,6 +350,20 @@ struct C19 : Scenario {
 			sum_packed += packed;
 			p.members.push_back(m);
 		}
+		bool dup_names = false;
+		if (rng.chance(1, 8) && p.gets("longname") != "1") {
+			// the same name more than once (legal: an archive that was appended to): a name argument selects every one of them
+			size_t nd = 1 + rng.below(3);
+			for (size_t k = 0; k < nd; ++k) {
+				Member d = p.members[rng.below(p.members.size())];
+				uint64_t o = d.orig > 0 ? (uint64_t) d.orig : 0, pk = d.packed >= 0 ? (uint64_t) d.packed : d.data.size();
+				if (d.packed >= 0) continue;   // only the last member may declare bytes the input does not hold
+				if (sum_orig + o >= (1ULL << 32) || sum_packed + pk >= (1ULL << 32)) continue;
+				sum_orig += o; sum_packed += pk;
+				p.members.insert(p.members.begin() + (long) rng.below(p.members.size()), d);
+				dup_names = true;
+			}
+		}
 		static const char *cmds[] = {"l", "lv", "v", "vv", "lq", "vq0", "lvq1", "vvq2", "-l", "vq", "lq1", "vvq0"};
 		p.argv = {"lha", cmds[rng.below(12)], rng.chance(1, 4) ? "-" : "/w/a.lzh"};
 		if (p.argv[2] == "-") p.sets("srckind", rng.chance(1, 2) ? "FILE_PIPE" : "FILE_SEEK");
@@ -364,6 +378,18 @@ struct C19 : Scenario {
 			return p;
 		}
 		int nf = rng.chance(1, 2) ? 0 : 1 + (int) rng.below(3);
+		if (dup_names) {
+			// plain names only, some of them of the duplicated members
+			nf = 1 + (int) rng.below(3);
+			for (int i = 0; i < nf; ++i) {
+				const Member &m = p.members[rng.below(p.members.size())];
+				std::string full = m.gpath + m.gname;
+				if (full.empty() || full.find_first_of("*?") != std::string::npos) full = "nothing-by-this-name";
+				p.argv.push_back(full);
+			}
+			p.sets("dupnames", "1");
+			return p;
+		}
 		for (int i = 0; i < nf; ++i) {
 			const Member &m = p.members[rng.below(p.members.size())];
 			std::string full = m.gpath + m.gname;
@@ -438,6 +464,7 @@ struct C19 : Scenario {
 		count("kind.tz." + p.gets("tz"));
 		count("kind.src." + (p.argv.size() > 2 && p.argv[2] == "-" ? "stdin_" + p.gets("srckind") : p.gets("srckind", "FILE_SEEK")));
 		if (p.argv.size() == 2) count("kind.one_argument_form");
+		if (p.gets("dupnames") == "1") count("kind.duplicate_names_with_name_arguments");
 		count("probe.clock_reads", g_sim.clock_reads);
 		count("probe.rows", rows);
 		res.trace = finish_trace();
